@@ -807,7 +807,8 @@ def _average(e, shape, ch, m, nomask, fv, regs, weights_1d=True):
         out.add("ma.where(cond)", lambda: da.ma.where(dz), lambda: np.ma.where(xz))
         out.add("ma.nonzero(plain array)", lambda: da.ma.nonzero(darr(data(shape), ch)), lambda: np.ma.nonzero(data(shape)))
     obs = out.finish()
-    # ---- inside the regions of the open findings: LAST on the path
+    # ---- inside the regions of the open findings: LAST on the path, the smallest region first
+    late.items.sort(key=lambda it: 2 if "weights" not in it["label"] else (1 if "returned" in it["label"] else 0))
     if not SKIP_OPEN or not (set(OPEN_REGIONS) & {"avg_returned_unweighted_masked", "avg_weighted_all_masked_sum_of_weights", "avg_weighted_all_masked_empty_chunk"}):
         obs += late.finish()
     else:
